@@ -24,7 +24,7 @@ COMPONENTS = {
 TX_STUB = dict(TX_IFACE, type="verifTxBase")
 
 CHECKS["C16"] = {
-    "explanation": "Bounded symbolic execution of gluon's message-set handling through its real go/ssa: (a) rfcparser.ParseNumber / command.ParseSeqSet on digit strings of up to 22 symbolic digits, (b) internal/state snapMsgList.{getMessagesInSeqRange,getMessagesInUIDRange,resolve*,seqRange,uidRange,binarySearchByUID,...} with every set number an arbitrary value the parser can produce and every UID of the view a strictly ascending symbolic 32-bit value.  Every assertion and run-time panic check is decided by an SMT solver (QF_BV) on every feasible path; counterexamples are replayed natively.",
+    "explanation": "Bounded symbolic execution of gluon's message-set handling through its real go/ssa: (a) rfcparser.ParseNumber / command.ParseSeqSet on digit strings of up to 22 symbolic digits, (b) internal/state snapMsgList.{getMessagesInSeqRange,getMessagesInUIDRange,resolve*,seqRange,uidRange,binarySearchByUID,...} with every set number an arbitrary value the parser can produce and every UID of the view a strictly ascending symbolic 32-bit value.  Every assertion and run-time panic check is decided by an SMT solver (QF_BV) on every feasible path; counterexamples are replayed natively. The state-level harnesses enter through snapshot.getMessagesInRange (sequence and UID mode), the function FETCH / STORE / COPY / SEARCH call.",
     "harnesses": [
         {"name": "number", "pkg": "imap/command", "pkgname": "command", "entry": "VerifC16Number", "files": ["zz_verif_c16.go", "zz_verif_reader.go"],
          "params": {"quick": grid(digits=[1, 5, 10, 18, 19, 20]), "thorough": grid(digits=list(range(1, 23)))},
@@ -47,7 +47,7 @@ CHECKS["C16"] = {
 }
 
 CHECKS["C17"] = {
-    "explanation": "Symbolic execution of limits.IMAP.Check* (real go/ssa) with every input and every configured maximum a symbolic full-width value; both directions (accepted => within the maximum in overflow-free arithmetic; fits => accepted) decided by SMT for all values (no bound on the values).",
+    "explanation": "Symbolic execution of limits.IMAP.Check* (real go/ssa) with every input and every configured maximum a symbolic full-width value; both directions (accepted => within the maximum in overflow-free arithmetic; fits => accepted) decided by SMT for all values (no bound on the values). VerifC17Connector: connector MessagesCreated batches and MessageMailboxesUpdated across a full and a free mailbox: no mailbox exceeds the maximum and a refused update leaves the index unchanged.",
     "harnesses": [
         {"name": "limits", "pkg": "limits", "pkgname": "limits", "entry": "VerifC17Limits", "files": ["zz_verif_c17.go"],
          "params": {"quick": [{}], "thorough": [{}]}, "cover": []},
@@ -66,7 +66,7 @@ CHECKS["C17"] = {
 }
 
 CHECKS["C13"] = {
-    "explanation": "Symbolic execution of the FETCH byte-exactness kernels through their real go/ssa with symbolic message bytes, offsets and lengths.",
+    "explanation": "Symbolic execution of the FETCH byte-exactness kernels through their real go/ssa with symbolic message bytes, offsets and lengths. VerifC13Parts: a multipart with an embedded message/rfc822 part and a text part (arbitrary body bytes): BODY[HEADER], BODY[1], BODY[1.MIME], BODY[1.HEADER], BODY[1.TEXT], BODY[1.HEADER.FIELDS (To)], BODY[2], BODY[2.MIME] compared with the exact bytes each path denotes.",
     "harnesses": [
         {"name": "partial", "pkg": "internal/response", "pkgname": "response", "entry": "VerifC13Partial", "files": ["zz_verif_c13.go"],
          "params": {"quick": grid(len=[0, 1, 2, 4]), "thorough": grid(len=[0, 1, 2, 3, 4, 5, 6, 8])}, "cover": []},
@@ -101,7 +101,7 @@ SCAN_SUMMARISE = [
 ]
 
 CHECKS["C11"] = {
-    "explanation": "Symbolic execution of command.Parser.Parse and everything below it (rfcparser scanner/parser, all command builders) on an arbitrary symbolic byte string of bounded length after a fixed positioning prefix, followed by end of stream; the scanner's per-byte classification is merged into one ite term (local fork/join) so that paths correspond to distinctions the parser makes.",
+    "explanation": "Symbolic execution of command.Parser.Parse and everything below it (rfcparser scanner/parser, all command builders) on an arbitrary symbolic byte string of bounded length after a fixed positioning prefix, followed by end of stream; the scanner's per-byte classification is merged into one ite term (local fork/join) so that paths correspond to distinctions the parser makes. A rejected line must not also yield a payload (the command reader dispatches STARTTLS on the payload before it looks at the error).",
     "harnesses": [
         {"name": "parse", "pkg": "imap/command", "pkgname": "command", "entry": "VerifC11Parse", "files": ["zz_verif_c11.go", "zz_verif_reader.go"],
          "params": {"quick": grid(prefix=[0], n=[1, 2, 3]) + grid(prefix=[1, 2, 3, 4, 5, 6, 7, 8, 9, 10, 11, 12, 13, 15, 16, 17, 18, 20, 21, 22, 23], n=[1, 2, 3]) + grid(prefix=[19], n=[4, 8, 12]),
@@ -164,7 +164,7 @@ CHECKS["C05"] = {
 }
 
 CHECKS["C12"] = {
-    "explanation": "Symbolic execution of gluon's message parsing kernels on arbitrary symbolic byte strings of bounded length: rfc822 header parser (progress and offset ordering per step, so termination for any length follows by induction on the offset), Split, the multipart boundary scanner and Section tree (parts inside parents, ordered, disjoint), rfc5322 address/date parsers (no panic, termination at end of input).",
+    "explanation": "Symbolic execution of gluon's message parsing kernels on arbitrary symbolic byte strings of bounded length: rfc822 header parser (progress and offset ordering per step, so termination for any length follows by induction on the offset), Split, the multipart boundary scanner and Section tree (parts inside parents, ordered, disjoint), rfc5322 address/date parsers (no panic, termination at end of input). Templates: the boundary scanner on three delimiter candidates and a close delimiter with arbitrary bytes around each; nested multiparts / embedded messages reusing the parent's boundary (every part inside its parent to depth 3); the parenthesised-list writer (imap/params.go) on arbitrary string values against a lenient IMAP list tokenizer.",
     "harnesses": [
         {"name": "headerparser", "pkg": "rfc822", "pkgname": "rfc822", "entry": "VerifHeaderParser", "files": ["zz_verif_rfc822.go"],
          "params": {"quick": grid(n=[0, 1, 2, 3, 4, 5]), "thorough": grid(n=list(range(0, 9)))}, "cover": []},
@@ -270,7 +270,7 @@ CHECKS["C14"] = {
 }
 
 CHECKS["C15"] = {
-    "explanation": "Symbolic execution of Mailbox.Search (sequential branch), buildSearchOp* for flag / keyword / size / UID-set / sequence-set / internal-date keys and NOT / OR / list / juxtaposition, applySearch, buildSearchData and interval resolution on a view with strictly ascending symbolic UIDs, symbolic sizes and dates and chosen flag sets; the result is compared message by message with a reference evaluator of the same symbolically chosen key tree.",
+    "explanation": "Symbolic execution of Mailbox.Search (sequential branch), buildSearchOp* for flag / keyword / size / UID-set / sequence-set / internal-date keys and NOT / OR / list / juxtaposition, applySearch, buildSearchData and interval resolution on a view with strictly ascending symbolic UIDs, symbolic sizes and dates and chosen flag sets; the result is compared message by message with a reference evaluator of the same symbolically chosen key tree. Set keys with two ranges whose four ends are symbolic (nested, overlapping, reversed) for UID and sequence sets.",
     "harnesses": [
         {"name": "search", "pkg": "internal/state", "pkgname": "state", "entry": "VerifC15Search",
          "files": ["zz_verif_c15.go", "zz_verif_c17.go"] + STATE_FILES, "with": ["verifdb"], "gen_stubs": [TX_STUB],
@@ -334,7 +334,7 @@ CHECKS["C04"] = {
 BACKEND_WITH = ["verifdb"]
 
 CHECKS["C06"] = {
-    "explanation": "Symbolic execution of backend user.apply and every apply* / setMessageMailboxes / setMessageFlags / userDBWrite (real go/ssa) on a directly constructed user with the relational model and a store stub: symbolic update kind (all 11), target object (known / unknown / protected recovery object) and database/store fault schedule; obligations: acknowledged exactly once with the returned error, no panic, failed update leaves the index unchanged, every listed message keeps its bytes, duplicate delivery changes nothing.",
+    "explanation": "Symbolic execution of backend user.apply and every apply* / setMessageMailboxes / setMessageFlags / userDBWrite (real go/ssa) on a directly constructed user with the relational model and a store stub: symbolic update kind (all 11), target object (known / unknown / protected recovery object) and database/store fault schedule; obligations: acknowledged exactly once with the returned error, no panic, failed update leaves the index unchanged, every listed message keeps its bytes, duplicate delivery changes nothing. VerifC06Sequence: two watching sessions, message updates of five kinds (mixed batches, mailboxes+flags, flags, deleted, message-ID changed) against a reference model: valid updates succeed with exactly the described change; restating updates and re-deliveries are unobservable (index snapshot equal, no EXISTS/EXPUNGE/FETCH from any session).",
     "harnesses": [
         {"name": "apply", "pkg": "internal/backend", "pkgname": "backend", "entry": "VerifC06Apply", "files": ["zz_verif_backend.go"], "with": BACKEND_WITH,
          "gen_stubs": [{"pkgpath": "github.com/ProtonMail/gluon/connector", "iface": "Connector", "type": "verifConnBase"}],
@@ -352,7 +352,7 @@ CHECKS["C06"] = {
 }
 
 CHECKS["C07"] = {
-    "explanation": "Effect-ordering protocol around the message store and the index transaction, with failing steps and crash points as symbolic variables: connector-driven message creation / update / deletion (user.apply -> applyMessagesCreated / applyMessageUpdated / applyMessageDeleted) run against stubs that log every externally visible effect (store write/delete, commit); for every prefix of that log the start-up procedure (user.deleteAllMessagesMarkedDeleted, user.cleanupStaleStoreData - executed symbolically on the post-crash state) must leave every listed message fetchable, no cache file without a row and no message marked deleted.",
+    "explanation": "Effect-ordering protocol around the message store and the index transaction, with failing steps and crash points as symbolic variables: connector-driven message creation / update / deletion (user.apply -> applyMessagesCreated / applyMessageUpdated / applyMessageDeleted) run against stubs that log every externally visible effect (store write/delete, commit); for every prefix of that log the start-up procedure (user.deleteAllMessagesMarkedDeleted, user.cleanupStaleStoreData - executed symbolically on the post-crash state) must leave every listed message fetchable, no cache file without a row and no message marked deleted. The store stub can fail after consuming its input (truncated file as a logged effect) and cached bytes of listed messages must be complete literals; VerifC07GetLiteral decides State.getLiteral for good / missing / unreadable cache files x recovered or not x connector failing or not; the commands harness (VerifC20Cycle) asserts after every APPEND / MOVE / COPY step under connector faults that every listed message keeps its bytes or a remote id.",
     "harnesses": [
         {"name": "crash", "pkg": "internal/backend", "pkgname": "backend", "entry": "VerifC07Crash", "files": ["zz_verif_backend.go"], "with": BACKEND_WITH,
          "gen_stubs": [{"pkgpath": "github.com/ProtonMail/gluon/connector", "iface": "Connector", "type": "verifConnBase"}],
